@@ -21,7 +21,9 @@ EXPLANATION = (
     "the merged schema no longer implies; (D5) the instance-type test used to filter enum values after a merge admits, for each "
     "JSON Schema type, every JSON kind of that type (number = unsigned, negative and fractional numbers; integer = the first "
     "two), evaluated abstractly over the eight JSON kinds: a test that is too narrow drops valid enum values from the merged "
-    "type."
+    "type; (D6) each keyword is combined in the direction of an intersection: upper bounds (`max*`) by min, lower bounds "
+    "(`min*`) by max, `uniqueItems` by or, `required` by union, type lists by intersection, and both operands of each "
+    "combination are the *same* member of the two schemas."
 )
 ASSUMPTIONS = ["the pairwise merge functions compute intersections (not decided)"]
 
@@ -42,6 +44,7 @@ def run(facts, rep, tier):
     run_d3(facts, rep, tier)
     run_d4(facts, rep, tier)
     run_d5(facts, rep, tier)
+    run_d6(facts, rep, tier)
     # ------------------------------------------------------------ consumption of Result<_, ()>
     n = 0
     for h in c.user_fns():
@@ -396,3 +399,59 @@ def run_d5(facts, rep, tier):
             rep.ob("C09.D5", "type-admits-its-kinds:%s" % name, not miss, "%s admits %s" % (name, sorted(ok_k)) if not miss else
                    "the test for JSON Schema type `%s` rejects %s values: valid enum values of that kind are filtered out of a merged schema, so the generated type rejects valid instances" % (name.lower(), "/".join(miss)), a.get("sp"))
     rep.floor("C09.D5", "JSON Schema types with an arm", len(seen), 7)
+
+
+COMBINE = [(r"^max", "Ord::min", "an upper bound of an intersection is the smaller of the two"),
+           (r"^min", "Ord::max", "a lower bound of an intersection is the larger of the two"),
+           (r"^unique_items$", "BitOr::bitor", "uniqueItems holds in the intersection if either side demands it")]
+SETOPS = {"required": ("union", "a member required by either side is required by the intersection"),
+          "~Vec": ("intersection", "an instance must have a type both sides allow")}
+
+
+def run_d6(facts, rep, tier):
+    c = facts.impl
+    n6 = 0
+    for h in c.user_fns():
+        ins = c.fns.get(h["fn"], {}).get("inputs", [])
+        if len(ins) < 2 or ins[0] != ins[1]:
+            continue
+        cn = None
+        for n, _ in walk(h["body"]):
+            if n.get("k") == "call" and len(n.get("args", [])) == 3:
+                g = c.fns.get(n.get("fn", ""), {})
+                gi = g.get("inputs", [])
+                if not (len(gi) == 3 and gi[0] == gi[1] and gi[0].startswith("std::option::Option<")):
+                    continue
+                cn = cn or PCanon(c, h, 3)
+                a0, a1, comb = [cn.r(a) for a in n["args"]]
+                if "$" in comb or not re.fullmatch(r"[A-Za-z_:<>]+", comb):
+                    continue  # the third argument is not a combining function
+                m0 = re.fullmatch(r"\$P0~Some\.(\w+)", a0)
+                m1 = re.fullmatch(r"\$P1~Some\.(\w+)", a1)
+                if not (m0 and m1):
+                    m0, m1 = re.fullmatch(r"\$P1~Some\.(\w+)", a0), re.fullmatch(r"\$P0~Some\.(\w+)", a1)
+                n6 += 1
+                field = m0.group(1) if m0 else "?"
+                key = "%s/%s" % (h["fn"], field)
+                if not (m0 and m1 and m0.group(1) == m1.group(1)):
+                    rep.ob("C09.D6", "combines-same-member:" + key, False, "`%s` is combined with `%s`: the two operands are not the same member of the two schemas" % (a0, a1), n.get("sp"))
+                    continue
+                want = [(w, why) for (pat, w, why) in COMBINE if re.search(pat, field)]
+                if not want:
+                    rep.ob("C09.D6", "direction:" + key, False, "no reviewed combination for member `%s` (combined with `%s`)" % (field, comb), n.get("sp"))
+                    continue
+                ok = comb == want[0][0]
+                rep.ob("C09.D6", "direction:" + key, ok, "%s by %s (%s)" % (field, comb, want[0][1]) if ok else
+                       "`%s` of the two schemas is combined with `%s`; %s (`%s`): the merged type admits instances one side rejects, or rejects instances both admit" % (field, comb, want[0][1], want[0][0]), n.get("sp"))
+            if n.get("k") == "mcall" and n["name"] in ("union", "intersection", "difference", "symmetric_difference") and n.get("args"):
+                cn = cn or PCanon(c, h, 3)
+                r0, r1 = cn.r(n["recv"]), cn.r(n["args"][0])
+                if not (("$P0" in r0 and "$P1" in r1) or ("$P1" in r0 and "$P0" in r1)):
+                    continue
+                for tag, (want, why) in SETOPS.items():
+                    if tag in r0 and tag in r1:
+                        n6 += 1
+                        ok = n["name"] == want and swap_sides(r0, "#", "#") == r1
+                        rep.ob("C09.D6", "set-direction:%s/%s" % (h["fn"], tag.strip("~")), ok, "%s of the two sides (%s)" % (n["name"], why) if ok else
+                               "`%s` of `%s` and `%s`: %s (`%s`)" % (n["name"], r0[:40], r1[:40], why, want), n.get("sp"))
+    rep.floor("C09.D6", "keyword combinations in binary merges", n6, 7)
